@@ -64,6 +64,15 @@ def parsePipe : Nat → List String → Option (Pipe × List String)
     | "buffered" :: _ :: rest => parsePipe fuel rest
     -- WithLockWhileMaterializing (SPEC / ASYNC cases only): the identity for the list-level meaning
     | "lock" :: _ :: rest => parsePipe fuel rest
+    | "dirfile" :: rest => pure (.src 0 [] 0, rest)
+    | "rdirfile" :: rest => pure (.src 0 [] 0, rest)
+    -- close-only lifecycle element r with its companion probe r+1000 (SPEC cases only)
+    | "lcc" :: r :: rest => do
+      let r ← r.toNat?; let (p, rest) ← parsePipe fuel rest
+      pure (.lc (r + 1000) p, rest)
+    | "srcc" :: r :: xs :: rest => do
+      let r ← r.toNat?; let xs ← parseIntList xs
+      pure (.lc (r + 1000) (.src r xs 0), rest)
     | "cmap" :: _ :: f :: rest => do
       let f ← parseFn f; let (p, rest) ← parsePipe fuel rest
       pure (.map f p, rest)
